@@ -68,8 +68,15 @@ impl From<&HMap> for Vec<u8> {
 // compare HMap objects without considering the order of key-value pairs
 impl PartialEq for HMap {
     fn eq(&self, other: &Self) -> bool {
-        let self_pairs = self.pairs.borrow();
-        let other_pairs = other.pairs.borrow();
+        if std::ptr::eq(self, other) {
+            return true;
+        }
+        // A map that is being modified (a key that contains the map itself is
+        // compared while it is inserted) is not equal to any other map
+        let (self_pairs, other_pairs) = match (self.pairs.try_borrow(), other.pairs.try_borrow()) {
+            (Ok(a), Ok(b)) => (a, b),
+            _ => return false,
+        };
 
         if self_pairs.len() != other_pairs.len() {
             return false;
